@@ -497,7 +497,8 @@ func (x *Exec) specEnv(cur, old State, vars map[string]SpecVar) *SpecEnv {
 		x.comp(cur, name)
 		x.comp(old, name)
 	}
-	env := &SpecEnv{Vars: vars, Cur: cur, Old: old, Funcs: x.E.Funcs, CompSorts: x.E.CompSorts, Epoch: x.E.Epoch, EntryAlloc: x.comp(x.Entry, "alloc")}
+	env := &SpecEnv{Vars: vars, Cur: cur, Old: old, Funcs: x.E.Funcs, CompSorts: x.E.CompSorts, Epoch: x.E.Epoch, Estable: x.E.Estable, EntrySt: x.Entry, EntryAlloc: x.comp(x.Entry, "alloc")}
+	env.ProveOK = x.proveNow
 	if x.acqState != nil {
 		env.Acq = x.fill(x.acqState)
 	} else if x.LockHavoc {
@@ -536,6 +537,85 @@ func (x *Exec) specVarOf(v Value, site string) (SpecVar, bool) {
 		return SpecVar{T: x.term(v, v.Typ, site)}, true
 	}
 	return SpecVar{}, false
+}
+
+// exitVars resolves local (debug) names at function exit: the latest definition whose block dominates a
+// return; each comes with the path condition of its defining block.
+func (fr *Frame) exitVars(st State) (map[string]SpecVar, map[string]Term) {
+	x := fr.x
+	vars := map[string]SpecVar{}
+	guards := map[string]Term{}
+	var rets []*ssa.BasicBlock
+	for _, b := range fr.fn.Blocks {
+		if len(b.Instrs) > 0 {
+			if _, ok := b.Instrs[len(b.Instrs)-1].(*ssa.Return); ok {
+				rets = append(rets, b)
+			}
+		}
+	}
+	depth := func(b *ssa.BasicBlock) int {
+		d := 0
+		for ; b != nil; b = b.Idom() {
+			d++
+		}
+		return d
+	}
+	for name, vs := range fr.names {
+		var pick ssa.Value
+		pd, pk := -1, -1
+		for _, v := range vs {
+			ins, ok := v.(ssa.Instruction)
+			if !ok || ins.Block() == nil {
+				continue
+			}
+			dom := false
+			for _, r := range rets {
+				if ins.Block().Dominates(r) {
+					dom = true
+				}
+			}
+			if !dom {
+				continue
+			}
+			if al, isAl := v.(*ssa.Alloc); isAl && al.Comment == name {
+				pick, pd, pk = v, 1<<30, 0
+				continue
+			}
+			d, k := depth(ins.Block()), 0
+			for i, i2 := range ins.Block().Instrs {
+				if i2 == ins {
+					k = i
+				}
+			}
+			if d > pd || (d == pd && k > pk) {
+				pick, pd, pk = v, d, k
+			}
+		}
+		if pick == nil {
+			continue
+		}
+		var val Value
+		if al, ok := pick.(*ssa.Alloc); ok {
+			pv, ok2 := fr.vals[al]
+			if !ok2 {
+				continue
+			}
+			val = x.load(st, pv, al.Type().(*types.Pointer).Elem(), BoolLit(true), "hint")
+		} else {
+			v, ok := fr.vals[pick]
+			if !ok {
+				continue
+			}
+			val = v
+		}
+		if sv, ok := x.specVarOf(val, "hint"); ok {
+			vars[name] = sv
+			if bc, ok := fr.bcond[pick.(ssa.Instruction).Block()]; ok {
+				guards[name] = bc
+			}
+		}
+	}
+	return vars, guards
 }
 
 // loopVars resolves names visible to a loop invariant.
@@ -670,6 +750,7 @@ func (x *Exec) cutLoop(fr *Frame, li *loopInfo, bc Term, st State) State {
 	// 1. invariant on entry
 	if len(invs) > 0 {
 		vars := fr.loopVars(li, st, func(p *ssa.Phi) Value { return fr.vals[p] })
+		x.curPC = bc
 		env := x.specEnv(st, fr.entrySt, vars)
 		env.Pre = x.fill(li.pre)
 		for _, cl := range invs {
@@ -839,6 +920,7 @@ func (x *Exec) cutLoop(fr *Frame, li *loopInfo, bc Term, st State) State {
 	// 3. assume invariants
 	if len(invs) > 0 {
 		vars := fr.loopVars(li, nst, func(p *ssa.Phi) Value { return fr.vals[p] })
+		x.curPC = Term{}
 		env := x.specEnv(nst, fr.entrySt, vars)
 		env.Pre = x.fill(li.pre)
 		for _, cl := range invs {
@@ -902,6 +984,8 @@ func (x *Exec) checkBackEdge(fr *Frame, from *ssa.BasicBlock, li *loopInfo, ec T
 		}
 	}
 	vars := fr.loopVars(li, st, func(p *ssa.Phi) Value { return fr.value(p.Edges[predIdx]) })
+	x.curPC = ec
+	defer func() { x.curPC = Term{} }()
 	env := x.specEnv(st, fr.entrySt, vars)
 	env.Pre = x.fill(li.pre)
 	fnName := fnKey(fr.fn)
